@@ -150,6 +150,54 @@ def run_case(case, ctx):
             _judge(ctx, "sptensor.elemfun", r, "-", A * -3.0, exact=True, fun="neg-scale")
             r = ctx.call("sptensor.elemfun", SA.elemfun, lambda v: v - 1.0)
             _judge(ctx, "sptensor.elemfun", r, "-", np.where(A != 0, A - 1.0, 0.0), exact=True, fun="shift")
+    if case["cseed"] % 4 == 1:
+        _typed_block(case, ctx, rng, A, B, shape)
+
+
+def _typed_block(case, ctx, rng, A, B, shape):
+    """Element types and non-finite stored values: the sparse result follows the dense (NumPy) result, including its type promotion."""
+    na, nb = int(np.count_nonzero(A)), int(np.count_nonzero(B))
+    Ai = np.where(A != 0, np.round(A * 2.0), 0.0)
+    Bi = np.where(B != 0, np.round(B * 2.0), 0.0)
+    pairs = [("int64", "float64", Ai.astype(np.int64), B), ("float64", "int64", A, Bi.astype(np.int64)), ("int32", "float64", Ai.astype(np.int32), B),
+             ("float32", "float64", A.astype(np.float32), B * 1.1), ("int64", "int64", Ai.astype(np.int64), Bi.astype(np.int64))]
+    ta, tb, Aa, Bb = pairs[case["cseed"] % len(pairs)]
+    if na and nb:
+        SA = gen.mk_sptensor(ttb, Aa, gen.stored_order(rng, na, "shuffled"), dtype=Aa.dtype)
+        SB = gen.mk_sptensor(ttb, Bb, gen.stored_order(rng, nb, "shuffled"), dtype=Bb.dtype)
+        ctx.feat(vtypes=f"{ta}/{tb}", scalar=None)
+        for name, uf in ARITH[:3]:
+            want = uf(Aa, Bb)
+            r = ctx.call("sptensor." + name, getattr(SA, name), SB)
+            _judge(ctx, "sptensor." + name, r, "sptensor", np.asarray(want, dtype=float), exact=True, AB=(Aa, Bb))
+        for name, uf in COMP:
+            r = ctx.call("sptensor." + name, getattr(SA, name), SB)
+            _judge(ctx, "sptensor." + name, r, "sptensor", uf(Aa, Bb), exact=False)
+        ctx.feat(vtypes=None)
+    if na:
+        # a stored infinity / NaN: scalar multiples (times zero is NaN there, as in the dense result), negation, scalar comparisons
+        An = A.copy()
+        pos = np.argwhere(A != 0)
+        An[tuple(pos[int(rng.integers(0, len(pos)))])] = [np.inf, -np.inf, np.nan][case["cseed"] % 3]
+        SN = gen.mk_sptensor(ttb, np.where(np.isnan(An), 1.0, An), gen.stored_order(rng, na, "shuffled"))
+        if np.isnan(An).any():
+            SN.vals[np.asarray(SN.vals).reshape(-1) == 1.0] = SN.vals[np.asarray(SN.vals).reshape(-1) == 1.0]     # (keeps genuine ones)
+            k_ = [i for i, sub in enumerate(np.asarray(SN.subs).tolist()) if np.isnan(An[tuple(sub)])]
+            SN.vals[k_] = np.nan
+        ctx.feat(nonfinite=["+inf", "-inf", "nan"][case["cseed"] % 3])
+        with np.errstate(all="ignore"):
+            for c in (0.0, -0.0, 2.0, -1.0):
+                ctx.feat(scalar=("0" if c == 0 else "neg" if c < 0 else "pos"))
+                r = ctx.call("sptensor.__mul__", operator.mul, SN, c)
+                _judge(ctx, "sptensor.__mul__", r, "scalar", An * c, exact=True, AB=(An, np.full(shape, c)))
+                r = ctx.call("sptensor.__rmul__", operator.mul, c, SN)
+                _judge(ctx, "sptensor.__rmul__", r, "scalar", c * An, exact=True, AB=(An, np.full(shape, c)))
+            ctx.feat(scalar=None)
+            r = ctx.call("sptensor.__neg__", operator.neg, SN)
+            _judge(ctx, "sptensor.__neg__", r, "-", -An, exact=True)
+            r = ctx.call("sptensor.__truediv__", operator.truediv, SN, 2.0)
+            _judge(ctx, "sptensor.__truediv__", r, "scalar", An / 2.0, exact=True, AB=(An, np.full(shape, 2.0)))
+        ctx.feat(nonfinite=None)
 
 
 def _binary(ctx, SA, name, R, rk, want, exact, AB=None):
